@@ -867,7 +867,7 @@ func writePlan(p Plan) {
 }
 
 func TestConcurrentPlans(t *testing.T) {
-	s := rt.S("plans").SetRule("a drawn plan: shared object kind (fresh type-1/2/3/5 issuer over a key whose lazily computed parts have not been computed, generic batch issuer, ECDSA signing/verification/blinding keys, Ed25519 keys), 2..16 goroutines, 1..5 operations each (Evaluate, EvaluateBatch, Verify, TokenKeyID, TokenKey, NameKey, Sign, Verify, Blind*, Unblind*, GenerateKey) with per-call arguments prepared beforehand, start skew, GOMAXPROCS in {2,4,16}; the goroutines are the first to touch the object. oracle: (1) the Go race detector (binary built with -race, halt_on_error) reports nothing, (2) every result is one a sequential call could have produced (responses finalize to verifying tokens, key ids and blinded keys equal the sequential values, signatures verify). non-trivial = plan with >= 2 goroutines whose first operation touches the shared object (all plans); distinct by plan")
+	s := rt.S("plans").SetRule("a drawn plan: shared object kind (fresh type-1/2/3/5 issuer over a key whose lazily computed parts have not been computed, generic batch issuer, ECDSA signing/verification/blinding keys, Ed25519 keys), 2..16 goroutines (now and then a crowd of 70..260 with 1..2 operations each), 1..5 operations each (Evaluate, EvaluateBatch, Verify, TokenKeyID, TokenKey, NameKey, Sign, Verify, Blind*, Unblind*, GenerateKey) with per-call arguments prepared beforehand, start skew, GOMAXPROCS in {2,4,16}; the goroutines are the first to touch the object. oracle: (1) the Go race detector (binary built with -race, halt_on_error) reports nothing, (2) every result is one a sequential call could have produced (responses finalize to verifying tokens, key ids and blinded keys equal the sequential values, signatures verify). non-trivial = plan with >= 2 goroutines whose first operation touches the shared object (all plans); distinct by plan")
 	rt.Check(t, 120, 16000, func(t *rapid.T) {
 		kind := gen.Pick(t, kindNames(), "kind")
 		nG := gen.UniformRange(t, 2, 16, "goroutines")
@@ -875,8 +875,19 @@ func TestConcurrentPlans(t *testing.T) {
 			nG = gen.UniformRange(t, 2, 4, "goroutinesFew")
 		}
 		p := Plan{Kind: kind, Seed: fmt.Sprintf("%x", gen.Seed().Draw(t, "seed")), GoMaxProcs: gen.Pick(t, []int{2, 4, 16}, "gomaxprocs")}
+		// now and then a CROWD: far more goroutines than cores, one or two operations each, all in flight at once (limits on
+		// concurrent work, semaphores and pools that answer "busy" or hand out an entry twice only show beyond their size)
+		crowd := gen.Uniform(t, 25, "crowd") == 0
+		if crowd {
+			nG = gen.Pick(t, []int{70, 130, 260}, "crowdSize")
+			p.GoMaxProcs = 16
+			s.Class("crowd")
+		}
 		for g := 0; g < nG; g++ {
 			n := gen.UniformRange(t, 2, 6, "nops")
+			if crowd {
+				n = gen.UniformRange(t, 1, 2, "crowdOps")
+			}
 			var ops []string
 			for i := 0; i < n; i++ {
 				ops = append(ops, gen.Pick(t, kinds[kind], "op"))
@@ -1063,4 +1074,35 @@ func issueOnce(typ uint16, okey *oprf.PrivateKey, rsaKey *rsa.PrivateKey, chal, 
 		return fmt.Errorf("concurrent independent client (type %d): finalization returned no error but %v", typ, err)
 	}
 	return nil
+}
+
+// TestCrowds: for every issuer kind one plan in which far more goroutines than cores each make ONE evaluation at the
+// same moment (100 in the quick tier, 100..400 in the thorough tier): limits on concurrent work that answer "busy", pools
+// that hand out an entry twice and tables that are rebuilt while they grow only show beyond their size.
+func TestCrowds(t *testing.T) {
+	s := rt.S("crowds").SetRule("per issuer kind (type 1, 2, 3, 5, generic batch) one plan with 100 (thorough: 100..400) goroutines, one Evaluate / EvaluateBatch each, released together; same oracles as the drawn plans. non-trivial = every plan; distinct by plan")
+	kindsAndOps := [][2]string{{"type2-issuer", "Evaluate"}, {"type3-issuer", "Evaluate"}, {"batch-issuer", "EvaluateBatch"}, {"type1-issuer", "Evaluate"}, {"type5-issuer", "Evaluate"}}
+	rt.Check(t, 1, 16, func(t *rapid.T) {
+		for _, ko := range kindsAndOps {
+			nG := 100
+			if rt.Thorough() {
+				nG = gen.Pick(t, []int{100, 200, 400}, "goroutines")
+			}
+			p := Plan{Kind: ko[0], Seed: fmt.Sprintf("%x", gen.Seed().Draw(t, "seed")), GoMaxProcs: 16}
+			for g := 0; g < nG; g++ {
+				p.Ops = append(p.Ops, []string{ko[1]})
+				p.Skew = append(p.Skew, 0)
+			}
+			writePlan(p)
+			s.Eval()
+			s.Class(ko[0])
+			pb, _ := json.Marshal(p)
+			s.Nontrivial(pb)
+			if err := execute(p); err != nil {
+				rt.Fail(t, "C17/"+ko[0]+"/crowd", "%v; plan: kind %s, %d goroutines with one %s each, seed %s", err, ko[0], nG, ko[1], p.Seed)
+				return
+			}
+		}
+		s.Sample(func() any { return "one crowd per issuer kind" })
+	})
 }
